@@ -210,7 +210,18 @@ class Encoder:
         h = ["(set-logic ALL)", "(set-option :pp.decimal true)", "(set-option :pp.decimal_precision 17)"]
         for j, v in enumerate(self.ob["vars"]):
             h.append(f"(declare-const v{j} Real)")
-            h.append(f"(assert (and (<= {fnum(v['lo'])} v{j}) (<= v{j} {fnum(v['hi'])})))")
+            lo, hi = v["lo"], v["hi"]
+            if self.ob["prop"] == "C07" and hi > lo:
+                # C07's domain: each component exactly on a bound (or exactly zero) or at least 1e-9 x range away from it
+                d = 1e-9 * (hi - lo)
+                inner = f"(<= {fnum(lo + d)} v{j}) (<= v{j} {fnum(hi - d)})"
+                pts = f"(= v{j} {fnum(lo)}) (= v{j} {fnum(hi)})"
+                if lo < 0 < hi:
+                    pts += f" (= v{j} 0.0)"
+                    inner += f" (or (<= v{j} {fnum(-d)}) (>= v{j} {fnum(d)}))"
+                h.append(f"(assert (or {pts} (and {inner})))")
+            else:
+                h.append(f"(assert (and (<= {fnum(lo)} v{j}) (<= v{j} {fnum(hi)})))")
         return h
 
 
@@ -258,13 +269,24 @@ def eval_sexpr(s):
     return parse(0)[0]
 
 
-def run_z3(script, cap):
-    t0 = time.time()
+def _z3(script, cap):
     try:
         p = subprocess.run([Z3, "-smt2", "-in", f"-T:{cap}"], input=script, capture_output=True, text=True, timeout=cap + 15)
-        out = p.stdout
+        return p.stdout
     except subprocess.TimeoutExpired:
-        out = "timeout"
+        return "timeout"
+
+
+def run_z3(script, cap):
+    """Two-strategy portfolio, sequential: z3's incremental core (forced by a leading `(push)`; it decided most of the
+    unsat queries of this code base in well under a second) and then the default non-incremental pipeline (nlsat tactic)."""
+    t0 = time.time()
+    i = script.rfind("(assert (and true")
+    inc = script[:i] + "(push)\n" + script[i:] if i >= 0 else "(push)\n" + script
+    out = _z3(inc, max(5, cap // 2))
+    first = (out.strip().splitlines() or [""])[0].strip()
+    if first not in ("sat", "unsat") and "(error" not in out.replace("model is not available", ""):
+        out = _z3(script, cap)
     return out, time.time() - t0
 
 
@@ -318,15 +340,50 @@ def decide_obligation(ob, tier, pool=None):
     roots = []
     for p in ob["paths"]:
         roots += [c for c, _ in p["pc"]] + list(p["assume"]) + [g[1] for g in p["goals"]]
+    partial = ob.get("partial") or []
+    if ob["prop"] == "C07":
+        for e in partial:
+            roots += list(e[1]) + [e[2]]
     try:
         enc.encode(roots)
     except Exception as e:  # unknown operator etc.
         o.result, o.detail = C.UNDECIDED, f"encoding failed: {e}"
         return o
+    if ob["prop"] == "C07":
+        # definedness of every partial operation executed on the path, under the guard it was executed under
+        def absx(e):
+            return f"(ite (>= {e} 0.0) {e} (- {e}))"
+        kinds = set()
+        for k, p in enumerate(ob["paths"]):
+            conj = []
+            for kind, ops, pc, run in partial:
+                if run != k and ob["mode"].startswith("scalar"):
+                    continue
+                kinds.add(kind)
+                a = [enc.name(x) for x in ops]
+                g = enc.name(pc)
+                if kind == "div":
+                    d = f"(and (not (= {a[1]} 0.0)) (<= {absx(a[0])} (* 1000000000000000000000000000000.0 {absx(a[1])})))"
+                elif kind == "sqrt":
+                    d = f"(>= {a[0]} 0.0)"
+                elif kind == "ln":
+                    d = f"(> {a[0]} 0.0)"
+                elif kind == "pow":
+                    d = f"(and (>= {a[0]} 0.0) (or (> {a[0]} 0.0) (> {a[1]} 0.0)))"
+                elif kind == "powi_neg":
+                    d = f"(not (= {a[0]} 0.0))"
+                else:  # asin / acos
+                    d = f"(and (<= (- 1.0) {a[0]}) (<= {a[0]} 1.0))"
+                conj.append(f"(=> {g} {d})")
+            p["goals"].append(["all_partial_operations_defined", "(and true " + " ".join(conj) + ")"])
+        goal_names.append("all_partial_operations_defined")
+        o.extra["partial_operations"] = {"count": len(partial), "kinds": sorted(kinds)}
+        enc_name = enc.name
+        enc.name = lambda i: i if isinstance(i, str) else enc_name(i)
     pending = []
     for gi, gname in enumerate(goal_names):
         ids = [p["goals"][gi][1] for p in ob["paths"]]
-        if all(nodes[i] == ["bconst", True] for i in ids):
+        if all((not isinstance(i, str)) and nodes[i] == ["bconst", True] for i in ids):
             results[gname] = ("pass", "decided by hash-consing / constant folding (no solver query)", None)
         else:
             pending.append((gi, gname))
@@ -336,33 +393,55 @@ def decide_obligation(ob, tier, pool=None):
     os.makedirs(os.path.join(C.BUILD, "smt"), exist_ok=True)
     mapper = pool.map if pool is not None else map
     # phase 1: which paths are feasible at all (also the vacuity check)
-    # feasibility / vacuity: variable ranges + path condition + assumptions only (their own cone of influence and the
-    # axiom instances on it), so that the size of the goal terms does not matter
-    fenc = Encoder(ob)
+    # feasibility / vacuity: a path is live if a concrete sample point takes it (numeric evaluation of its path
+    # condition and assumptions: a reachability witness), otherwise the solver is asked (only when goals are pending)
+    from . import dageval as DE
+    witness = {}
     froots = []
     for p in ob["paths"]:
         froots += [c for c, _ in p["pc"]] + list(p["assume"])
-    fenc.encode(froots)
-    fax, fext, _ = AX.ground_axioms(fenc, ob)
-    fhdr = fenc.header() + AX.declarations(fenc.used_uf) + fenc.lines + fax + fext
-    feas_scripts = [query_script(fenc, ob, p, fhdr) for p in ob["paths"]]
-    feas_out = list(mapper(lambda sc: run_z3(sc, min(cap, 60)), feas_scripts))
-    o.queries = len(feas_out)
-    o.solver_s = sum(t for _, t in feas_out)
+    if ob["vars"]:
+        for pt in DE.sample_points(ob["vars"], 300 if len(ob["paths"]) > 1 else 40, C.seed()):
+            val = DE.evaluate(nodes, pt, froots)
+            for k, p in enumerate(ob["paths"]):
+                if k not in witness and all(val[c] is t or val[c] == t for c, t in p["pc"]) and all(val[x] is True for x in p["assume"]):
+                    witness[k] = pt
+                    if len(ob["paths"]) > 1:
+                        break
+    else:
+        witness = {0: []}
+    o.queries = 0
     errors = []
-    live = []
-    feasible = 0
-    for (out, _), p in zip(feas_out, ob["paths"]):
-        first = (out.strip().splitlines() or ["timeout"])[0].strip()
-        if "(error" in out:
-            errors.append(out[out.index("(error"):][:200])
-        elif first == "sat":
-            feasible += 1
-            live.append(p)
-        elif first != "unsat":
-            live.append(p)
+    live = [p for k, p in enumerate(ob["paths"]) if k in witness]
+    feasible = len(live)
+    unknown = [p for k, p in enumerate(ob["paths"]) if k not in witness]
+    if unknown and pending:
+        fenc = Encoder(ob)
+        fenc.encode(froots)
+        fax, fext, _ = AX.ground_axioms(fenc, ob)
+        fhdr = fenc.header() + AX.declarations(fenc.used_uf) + fenc.lines + fax + fext
+        t0f = time.time()
+        for k in range(0, len(unknown), max(1, JOBS)):
+            chunk_p = unknown[k:k + max(1, JOBS)]
+            if time.time() - t0f > cap * 2:
+                live += unknown[k:]       # not decided: keep them live, the goal queries decide
+                break
+            outs_f = list(mapper(lambda pp: run_z3(query_script(fenc, ob, pp, fhdr), min(cap, 20)), chunk_p))
+            o.queries += len(outs_f)
+            o.solver_s += sum(t for _, t in outs_f)
+            for (out, _), pp in zip(outs_f, chunk_p):
+                first = (out.strip().splitlines() or ["timeout"])[0].strip()
+                if "(error" in out:
+                    errors.append(out[out.index("(error"):][:200])
+                elif first == "sat":
+                    feasible += 1
+                    live.append(pp)
+                elif first != "unsat":
+                    live.append(pp)
+    o.extra["reachability_witness"] = next(iter(witness.values()), None)
     # phase 2: every feasible path x pending goal
-    jobs = [(p, gi, gname) for p in live for gi, gname in pending if nodes[p["goals"][gi][1]] != ["bconst", True]]
+    jobs = [(p, gi, gname) for p in live for gi, gname in pending
+            if isinstance(p["goals"][gi][1], str) or nodes[p["goals"][gi][1]] != ["bconst", True]]
     # stage 1: basic axioms; stage 2 (only if stage 1 is not unsat and extended axioms exist): + trigonometric relations
     scripts = [(query_script(enc, ob, p, hdr, p["goals"][gi][1]),
                 query_script(enc, ob, p, hdr_ext, p["goals"][gi][1]) if ext_axioms else None) for p, gi, gname in jobs]
@@ -413,8 +492,9 @@ def decide_obligation(ob, tier, pool=None):
                 if rp is None:
                     results[gname] = ("undecided", "replay failed: " + err, None)
                     continue
-                bad64 = rp["f64"]["assume_ok"] and rp["f64"]["goals"].get(gname) is False
-                bad32 = rp["f32"]["assume_ok"] and rp["f32"]["goals"].get(gname) is False
+                ng = "finite" if gname == "all_partial_operations_defined" else gname
+                bad64 = rp["f64"]["assume_ok"] and rp["f64"]["goals"].get(ng) is False
+                bad32 = rp["f32"]["assume_ok"] and rp["f32"]["goals"].get(ng) is False
                 if bad64 and bad32:
                     results[gname] = ("violation", f"inputs {dict(zip([x['name'] for x in ob['vars']], v))} violate goal '{gname}' natively in f64 and f32 {rp['f64']['show']}", v)
                     done = True
